@@ -128,6 +128,11 @@ type lifeAttempt struct {
 	OK     bool
 	Ctx    context.Context // the generation ctx the library passed (active: possibly wrapped with a timeout)
 	Listen *lifeListener
+	// blackholed dials (C10): the dialer blocked until its ctx was done
+	Hole        bool
+	FromLoop    bool   // invoked from the reconnect loop (connectLoop), not from Open under lifeMu
+	HadDeadline bool   // the dial ctx carried a deadline (WithConnectTimeout configured)
+	CtxErr      string // "canceled" | "deadline" | "stuck" (hard cap hit) — how the blackholed dial ended
 }
 
 // lifeNet owns everything network-like for ONE connection under test.
@@ -141,6 +146,10 @@ type lifeNet struct {
 	// plan decides what dial / listen attempt n does: ok=false → refuse. For an accepted active dial
 	// serve is run on the harness end of the pipe (in its own goroutine).
 	plan func(n int) (ok bool, serve func(peer net.Conn))
+	// hole (optional, active role) says whether dial attempt n is BLACKHOLED: the peer neither accepts
+	// nor refuses, so the dialer blocks until its ctx is done (cancelled by a teardown, or its
+	// per-attempt deadline) and then returns the ctx error — what net.Dialer.DialContext does.
+	hole func(n int) bool
 	// onListen is called (in a goroutine) with each successful listener (passive role).
 	onListen func(n int, l *lifeListener)
 	wg       sync.WaitGroup // harness-side peer goroutines
@@ -202,7 +211,43 @@ func (n *lifeNet) dial(ctx context.Context, _, _ string) (net.Conn, error) {
 	at := &lifeAttempt{N: len(n.attempts), At: time.Now(), Ctx: ctx}
 	n.attempts = append(n.attempts, at)
 	plan := n.plan
+	hole := n.hole
 	n.mu.Unlock()
+	if hole != nil && hole(at.N) {
+		fromLoop := lifeCalledFromConnectLoop()
+		_, hasDl := ctx.Deadline()
+		if !fromLoop && !hasDl {
+			// Open's own synchronous dial with no connect timeout configured would block for the OS connect
+			// timeout while holding lifeMu (nothing can cancel it): not a scenario with a bound to check.
+			n.mu.Lock()
+			n.obs = append(n.obs, "dial.fail")
+			at.Ret = time.Now()
+			n.mu.Unlock()
+			return nil, errLifeRefused
+		}
+		n.mu.Lock()
+		at.Hole, at.FromLoop, at.HadDeadline = true, fromLoop, hasDl
+		n.mu.Unlock()
+		how := "stuck"
+		select {
+		case <-ctx.Done():
+			if errors.Is(ctx.Err(), context.DeadlineExceeded) {
+				how = "deadline"
+			} else {
+				how = "canceled"
+			}
+		case <-time.After(45 * time.Second): // hard cap so a history can never wedge the harness
+		}
+		n.mu.Lock()
+		n.obs = append(n.obs, "dial.fail")
+		at.CtxErr = how
+		at.Ret = time.Now()
+		n.mu.Unlock()
+		if err := ctx.Err(); err != nil {
+			return nil, err
+		}
+		return nil, errLifeRefused
+	}
 	ok, serve := true, (func(net.Conn))(nil)
 	if plan != nil {
 		ok, serve = plan(at.N)
@@ -229,6 +274,23 @@ func (n *lifeNet) dial(ctx context.Context, _, _ string) (net.Conn, error) {
 		go func() { defer n.wg.Done(); _, _ = io.Copy(io.Discard, b) }()
 	}
 	return lc, nil
+}
+
+// lifeCalledFromConnectLoop reports whether the current goroutine is the library's reconnect loop
+// (as opposed to Open's synchronous first dial under lifeMu).
+func lifeCalledFromConnectLoop() bool {
+	pcs := make([]uintptr, 64)
+	k := runtime.Callers(2, pcs)
+	fr := runtime.CallersFrames(pcs[:k])
+	for {
+		f, more := fr.Next()
+		if strings.HasSuffix(f.Function, ".connectLoop") || strings.Contains(f.Function, ").connectLoop") {
+			return true
+		}
+		if !more {
+			return false
+		}
+	}
 }
 
 // listen is the hsms.ListenFunc handed to the library (passive role).
